@@ -172,7 +172,10 @@ def parse_rvalue(s):
             return ("cast", parse_operand(m.group(1)), m.group(2), m.group(3))
         return ("use", parse_operand(s))
     if s.startswith("&raw "):
-        return ("ref", parse_place(s.split(" ", 2)[2]))
+        rest = s.split(" ", 2)[2].strip()
+        if rest.startswith("(fake) "):  # `&raw const (fake) (*_x)`: the fake borrow of a match on a slice pattern
+            rest = rest[len("(fake) "):]
+        return ("ref", parse_place(rest))
     if s.startswith("&mut "):
         return ("ref", parse_place(s[5:]), "mut")
     if s.startswith("&"):
